@@ -129,7 +129,7 @@ HARNESS(h_ks_create) {
     CHECK(rng_n == rows + rows * NOUT, "C08/C07 one gaussian per non-zero row and one uniform draw per mask coefficient");
     double sum = 0;
     for (int r = 0; r < rows; r++) {
-        CHECK(rng_kind[r] == 1 && rng_sigma[r] == alpha && rng_mean[r] == 0.0, "C08/C07 key-switch noise: gaussian with sigma = alpha_min of the output key");
+        CHECK(rng_kind[r] == 1 && rng_sigma[r] == alpha && rng_mean[r] == 0.0, "C08/C07 key-switch noise: gaussian with sigma = alpha_min of the output key [sampling idiom]");
         sum += rng_dval[r];
     }
     /* divide by a run-time count: with a literal power of two clang folds x/4.0 into x*0.25, which the uninterpreted
